@@ -308,3 +308,111 @@ func runG15(r *Repo, rep *Report) {
 	}
 	_ = strings.Contains
 }
+
+// g15StringCuts — identifiers (type names, field names, function names) need not be ASCII. A string that holds one may be cut
+// (s[:i], s[i:], s[i]) only at offsets that are known to lie between characters: a constant 0, len(s), or an offset that a strings
+// search for an ASCII literal returned. In package derive every other cut of a string must go through []rune. The rule lists
+// every variable-offset cut of a string-typed operand and accepts those whose offsets come from strings.Index/LastIndex (+ len of
+// a literal) or utf8 decoding; the rest is reported.
+func g15StringCuts(r *Repo, rep *Report) {
+	n := 0
+	for _, b := range r.bodies() {
+		if b.Pkg.Name != "derive" {
+			continue
+		}
+		info := b.Pkg.TypesInfo
+		isString := func(e ast.Expr) bool {
+			t := info.TypeOf(e)
+			if t == nil {
+				return false
+			}
+			bt, ok := t.Underlying().(*types.Basic)
+			return ok && bt.Info()&types.IsString != 0
+		}
+		// offsets that are safe: constants, len(x), results of strings.Index*/utf8 functions (possibly plus a constant or len of a literal)
+		visiting := map[types.Object]bool{}
+		var safe func(e ast.Expr, depth int) bool
+		safe = func(e ast.Expr, depth int) bool {
+			if e == nil {
+				return true
+			}
+			if tv, ok := info.Types[e]; ok && tv.Value != nil {
+				return true
+			}
+			switch x := ast.Unparen(e).(type) {
+			case *ast.CallExpr:
+				if exprStr(x.Fun) == "len" {
+					return true
+				}
+				if fn, ok := callee(info, x).(*types.Func); ok && fn.Pkg() != nil && (fn.Pkg().Path() == "strings" || fn.Pkg().Path() == "unicode/utf8" || fn.Pkg().Path() == "bytes") {
+					return true
+				}
+			case *ast.BinaryExpr:
+				return safe(x.X, depth) && safe(x.Y, depth)
+			case *ast.Ident:
+				if depth > 3 {
+					return false
+				}
+				o := info.Uses[x]
+				if o == nil {
+					return false
+				}
+				if visiting[o] {
+					return true // the variable itself inside one of its own updates (offset = offset + len("/vendor/"))
+				}
+				visiting[o] = true
+				defer delete(visiting, o)
+				// every assignment to the variable in this body is safe
+				all, any := true, false
+				inspectOwn(b.Block, func(m ast.Node) bool {
+					switch s := m.(type) {
+					case *ast.AssignStmt:
+						for i, l := range s.Lhs {
+							if id, ok := l.(*ast.Ident); ok && objOf(info, id) == o {
+								any = true
+								if len(s.Rhs) == len(s.Lhs) {
+									if !safe(s.Rhs[i], depth+1) {
+										all = false
+									}
+								} else if len(s.Rhs) == 1 {
+									if !safe(s.Rhs[0], depth+1) {
+										all = false
+									}
+								}
+							}
+						}
+					case *ast.IncDecStmt:
+						if id, ok := s.X.(*ast.Ident); ok && objOf(info, id) == o {
+							all = false // a counter walks through every offset
+						}
+					case *ast.RangeStmt:
+						if id, ok := s.Key.(*ast.Ident); ok && objOf(info, id) == o {
+							any = true
+							if !isString(s.X) {
+								all = false // an index of something else than the string itself
+							}
+						}
+					}
+					return true
+				})
+				return any && all
+			}
+			return false
+		}
+		inspectOwn(b.Block, func(m ast.Node) bool {
+			se, ok := m.(*ast.SliceExpr)
+			if !ok || !isString(se.X) {
+				return true
+			}
+			n++
+			if safe(se.Low, 0) && safe(se.High, 0) {
+				rep.pass("G15")
+				return true
+			}
+			rep.fail(Finding{Rule: "G15", Key: "G15|string-cut|" + b.Name, Where: []string{r.pos(se.Pos())},
+				Msg: b.Name + " cuts the string " + exprStr(se.X) + " at an offset that is a running byte count (" + exprStr(se) + "): when the string holds an identifier with a character outside ASCII (type Ünit) the cut falls inside a character and the result is not valid UTF-8 — as a function name it makes derived.gen.go (and, with -autoname, the rewritten user file) unparsable"})
+			return true
+		})
+	}
+	rep.analysed("string_cuts", n)
+}
